@@ -5,7 +5,7 @@ CONSTANTS
   Kind = "nameaddr"
   Atoms <- AtomsExpBig
   Prefix <- PfxExp64
-  MaxLen = 36
+  MaxLen = 35
   Cfgs <- CfgsNA8
   Junk = 34
   EmitOn = TRUE
